@@ -5,11 +5,12 @@ Q = 'biogeme.models.piecewise.'
 
 _REPLAY_VARIABLES = """
 from biogeme.models.piecewise import piecewise_variables
+violated = False
 cands = []
 mt = m.get('thresholds[]')
 if isinstance(mt, list) and len(mt) >= 2:
     cands.append([None if v is None else float(v) for v in mt])
-cands += [[1.0, 2.0], [2.0, None], [None, 5.0], [1.0, 2.0, 4.0], [None, 1.0, None]]
+cands += [[1.0, 2.0], [2.0, None], [None, 5.0], [1.0, 2.0, 4.0], [None, 1.0, None], [0.0, 1.0, 2.0], [0, 2.0], [-1.0, 0.0, 3.0]]
 violated = False
 for t in cands:
     if all(v is None for v in t) or None in t[1:-1]:
@@ -23,6 +24,11 @@ for t in cands:
     if len(got) != len(t) - 1:
         violated = True
         detail = f'piecewise_variables("x", {t}) returned {len(got)} variables for {len(t) - 1} interval(s): {[str(g) for g in got]}'
+        break
+    kind = type(got[0]).__name__
+    if (kind == 'bioMin') != (t[0] is None) or (kind == 'bioMax') != (t[0] is not None):
+        violated = True
+        detail = f'piecewise_variables("x", {t}): first variable is {got[0]} ({kind}); min(x, t1) is documented for an open lower end only'
         break
 """
 
@@ -38,10 +44,14 @@ contract(Q + 'piecewise_variables', 'C17',
          # (contracts/c17_obligations.py); the thresholds facts needed after the loop are carried by the invariant
          modifies=[], check_frame=False,
          ensures={'one_variable_per_interval': "len(result) == len(thresholds) - 1",
-                  'thresholds_length_kept': "len(thresholds) == old(len(thresholds))"},
+                  'thresholds_length_kept': "len(thresholds) == old(len(thresholds))",
+                  # shape of the first variable: min(x, t1) only for an OPEN lower end (a closed lower end at 0 is clipped at 0)
+                  'first_variable_kind': "iff(isinstance(typed(result[0], 'Expression'), bioMin), thresholds[0] is None) "
+                                         "and iff(isinstance(typed(result[0], 'Expression'), bioMax), thresholds[0] is not None)"},
          invariants={1: {'clauses': {
              'count': "len(results) == 1 + _k",
              'own_list': "results is not thresholds and c17_allocated(results)",
+             'first_kept': "iff(isinstance(typed(results[0], 'Expression'), bioMin), thresholds[0] is None) and iff(isinstance(typed(results[0], 'Expression'), bioMax), thresholds[0] is not None)",
              'thresholds_kept': "len(thresholds) == eye and forall(lambda q: thresholds[q] is not None, 1, len(thresholds) - 1) "
                                 "and (thresholds[0] is None) == old(thresholds[0] is None) "
                                 "and (thresholds[len(thresholds) - 1] is None) == old(thresholds[len(thresholds) - 1] is None)"}}},
